@@ -31,7 +31,7 @@ COPY_DOC = {"traverse", "get_row", "get_cell", "traverse_columns", "get_columns"
             "Row.get_cell"}
 GETTERS = ["get_cell", "get_cell-keep", "get_cell-noclone", "get_row", "get_cells", "get_cells-flat", "get_rows", "traverse",
            "rows", "cells", "get_column", "get_columns", "traverse_columns", "columns", "get_column_cells", "Row.get_cell",
-           "Row.traverse", "Row.traverse-range", "Row.cells", "Row.get_cells", "get_column_cells-filter", "get_cells-filter", "get_rows-filter"]
+           "Row.traverse", "Row.traverse-range", "Row.cells", "Row.get_cells", "get_column_cells-filter", "get_cells-filter", "get_rows-filter", "traverse-lazy", "traverse-lazy", "traverse_columns-lazy", "Row.traverse-lazy"]
 MUTS = ["set_value", "clear", "style", "repeated", "append", "text"]
 FILTERS = [{"content": "^$"}, {"content": ".*"}, {"content": "a"}, {"content": "1"}, {"content": "x*"}, {"cell_type": "all"}, {"cell_type": "float"},
            {"cell_type": "string"}, {"style": "ce1"}, {"content": "", "cell_type": "all"}, {"content": "^$", "style": None}]
@@ -157,6 +157,46 @@ def run_case(case, ctx):
         elif getter == "traverse":
             res = list(t.traverse(start=y, end=tt)) if dx % 2 else list(t.traverse())
             expect_rows = list(range(y, min(tt + 1, h))) if dx % 2 else list(range(h))
+        elif getter in ("traverse-lazy", "traverse_columns-lazy"):
+            # the generator consumed one item at a time, an item mutated before the next one is requested
+            rowwise = getter == "traverse-lazy"
+            if rowwise:
+                gen = t.traverse(start=y, end=tt) if dx % 2 else t.traverse()
+                expect = list(range(y, min(tt + 1, h))) if dx % 2 else list(range(h))
+            else:
+                gen = t.traverse_columns(start=x, end=z) if dy % 2 else t.traverse_columns()
+                expect = list(range(x, min(z + 1, w))) if dy % 2 else list(range(w))
+            k = pick % len(expect) if expect else 0
+            got = []
+            for i, o in enumerate(gen):
+                if i == k:
+                    live_known = rowwise and not _row_in_run_xml(before, expect[k]) and ctx.known(("C08", "Table.traverse", "alias-unrepeated-row"))
+                    mutate(o, mut, mv, mn)
+                    if live_known:
+                        ctx.count("excluded-known:traverse-alias")
+                    else:
+                        sig_ = ("C08", "Table.traverse", "alias-unrepeated-row") if rowwise and not _row_in_run_xml(before, expect[k]) \
+                            else ("C08", getter, "not-detached")
+                        ctx.check(ser(t) == before, sig_, f"mutating ({mut}) item {i} of the lazy {getter} changed the table", case)
+                got.append(o)
+            ctx.check(len(got) == len(expect), ("C08", getter, "count"), f"{len(got)} items yielded, expected {expect}", case)
+            for i, (o, e_) in enumerate(zip(got, expect)):
+                if i == k:
+                    continue
+                if rowwise:
+                    want = [read_value(c[0]) for c in m.get_row(e_)]
+                    gv = o.get_values()
+                    ok = o.y == e_ and len(gv) == len(want) and all(same_value(a, b) for a, b in zip(gv, want)) and o.repeated is None
+                    ctx.check(ok, ("C08", getter, "aliases-other-result"),
+                              f"after mutating ({mut}) item {k}, item {i} (row {e_}) reads y={o.y} repeated={o.repeated} {gv!r}, grid {want!r}", case)
+                else:
+                    ok = o.x == e_ and o.style == (m.cols[e_] if e_ < w else None) and o.repeated is None
+                    ctx.check(ok, ("C08", getter, "aliases-other-result"),
+                              f"after mutating ({mut}) item {k}, item {i} (column {e_}) reads x={o.x} repeated={o.repeated} style={o.style!r}", case)
+            if expect and in_run(t, 0, expect[k]) if rowwise and expect else False:
+                ctx.nontrivial((spec, pre, getter, x, y, dx, dy, mut, pick))
+            ctx.count("lazy-mutation")
+            return
         elif getter == "rows":
             res = t.rows
             expect_rows = list(range(h))
@@ -226,6 +266,31 @@ def run_case(case, ctx):
             elif getter == "Row.traverse-range":
                 res = list(row.traverse(start=x, end=z))
                 expect_cells = [(xx, y) for xx in range(x, min(z + 1, len(mrow)))]
+            elif getter == "Row.traverse-lazy":
+                gen = row.traverse(start=x, end=z) if dy % 2 else row.traverse()
+                expect = [xx for xx in (range(x, min(z + 1, len(mrow))) if dy % 2 else range(len(mrow)))]
+                k = pick % len(expect) if expect else 0
+                got = []
+                row_before = ser(row)
+                for i, o in enumerate(gen):
+                    if i == k:
+                        mutate(o, mut, mv, mn)
+                        ctx.check(ser(t) == before and ser(row) == row_before, ("C08", getter, "not-detached"),
+                                  f"mutating ({mut}) item {i} of the lazy Row.traverse changed the row or the table", case)
+                    got.append(o)
+                ctx.check(len(got) == len(expect), ("C08", getter, "count"), f"{len(got)} cells yielded, expected {expect}", case)
+                for i, (o, e_) in enumerate(zip(got, expect)):
+                    if i == k:
+                        continue
+                    mv_, ms_ = mrow[e_]
+                    ok = (o.x, o.y) == (e_, y) and same_value(o.get_value(), read_value(mv_)) and o.style == ms_ and o.repeated is None
+                    ctx.check(ok, ("C08", getter, "aliases-other-result"),
+                              f"after mutating ({mut}) item {k}, item {i} (cell {e_}) reads ({o.x},{o.y}) repeated={o.repeated} "
+                              f"({o.get_value()!r},{o.style!r}), grid ({mv_!r},{ms_!r})", case)
+                ctx.count("lazy-mutation")
+                if expect:
+                    ctx.nontrivial((spec, pre, getter, x, y, dx, dy, mut, pick))
+                return
             elif getter == "Row.cells":
                 res = row.cells
                 expect_cells = [(xx, y) for xx in range(len(mrow))]
